@@ -343,6 +343,13 @@ def scripted_app(scripts, records, driver: Driver, default=None):
                     rec["sends"].append(["ok"])
                 except Exception as e:  # noqa: BLE001
                     rec["sends"].append(["raise", exn_tag(e)])
+            elif st[0] == "send!":   # like "send", but the application lets the exception propagate
+                try:
+                    await send(st[1])
+                    rec["sends"].append(["ok"])
+                except Exception as e:  # noqa: BLE001
+                    rec["sends"].append(["raise", exn_tag(e)])
+                    raise
             elif st[0] == "recv":
                 rec["received"].append(await receive())
             elif st[0] == "recv_all":
